@@ -26,13 +26,19 @@ PROP = Property(
         )],
     verus=[VerusUnit("heap_index", "verus/C09/heap_index.tmpl.rs",
                      "extracted parent/left_child/right_child/sibling: parent(left_child(i)) == parent(right_child(i)) == i, sibling involutive, siblings share their parent, parity <=> left/right child, no overflow below usize::MAX/2; leaf layout lemma",
-                     ["merkle_tree::parent", "merkle_tree::left_child", "merkle_tree::right_child", "merkle_tree::sibling"], paired_kani=["c09_heap_index_laws_all_indices"], twins_equivalent=True)],
+                     ["merkle_tree::parent", "merkle_tree::left_child", "merkle_tree::right_child", "merkle_tree::sibling"], paired_kani=["c09_heap_index_laws_all_indices"], twins_equivalent=True),
+           VerusUnit("mkmap_proof", "verus/C11/mkmap_proof.tmpl.rs",
+                     "nested Merkle map (internal/mithril-merkle-tree), extracted text: MKMapProof::verify() Ok ==> the master proof verifies, EVERY sub-proof verifies (recursive call under the same contract = induction hypothesis) and for "
+                     "EVERY (key, sub-proof) pair the node key + root(sub-proof) is a leaf of the master proof (no detached, skipped or re-keyed sub-proof); compute_root() is the master proof's root (shared with C11)",
+                     ["MKMapProof::verify", "MKMapProof::compute_root"])],
+    replays=[dict(crate="mithril-merkle-tree", file="internal/mithril-merkle-tree/src/merkle_map.rs", module="replays/c11_mkmap.rs")],
     assumptions=[
         "hash = ideal (collision-free, memoised) function: the real generic tree/commitment code is executed at this Digest implementation; Blake2b itself is not verified",
         "tree size bounded (n <= 2 quick, n <= 4 thorough), one harness per concrete shape (selection resp. number of claimed leaves / path values), contents symbolic; wire indices < 8 (overflow of `i + next_power_of_two - 1` for huge indices is a C05 matter)",
-        "generic Merkle tree / nested map in internal/mithril-merkle-tree delegate to ckb-merkle-mountain-range (external algorithm): NOT under contract here; MKProof/MKMapProof linking rules are not decided in this unit",
+        "generic Merkle tree in internal/mithril-merkle-tree delegates to ckb-merkle-mountain-range (external algorithm): MKProof::verify is an ASSUMED callee contract (uninterpreted `mkproof_valid`), MKProof::contains / MKMapProof::contains (closure scans) are assumed contracts; "
+        "the nested map's linking rule MKMapProof::verify IS under contract (unit mkmap_proof; recursion verified modularly, partial correctness; rewrites: StdResult, for-loop over &Vec -> `for e in it: v.iter()`, .with_context removed, the map/collect expression -> contract fn link_nodes)",
         "to_cbor_bytes (error decoration only) stubbed",
     ],
     explanation="Generate/verify of the signer-registration Merkle tree checked on the real generic code at an ideal hash for every tree up to the bound, every selection and every proof value; heap-index algebra proved without bound by Verus on the extracted helpers.",
-    not_decided=["internal/mithril-merkle-tree MKTree / MKMap proofs (ckb-merkle-mountain-range is external code)", "trees larger than the bound"],
+    not_decided=["soundness of the mountain-range proof itself (MKProof::verify: ckb-merkle-mountain-range is external code) and MKProof::contains / MKMapProof::contains", "trees larger than the bound"],
 )
